@@ -182,6 +182,52 @@ def _work_seq(task) -> core.Part:
     return p
 
 
+def _work_sweep(task) -> core.Part:
+    """Every octet value in every check-sequence position (FCS low/high, HCS low/high): each such frame alone and between two others."""
+    lo, hi = task
+    p = core.Part()
+    pool = core_pool()
+    for label, fr in X.fcs_sweep_frames()[lo:hi]:
+        for frames in ([fr], [pool["short"], fr, pool["hdr_only"]]):
+            for cfg in X.CFGS:
+                if not all(RH.clean_domain(f, cfg[0], cfg[1]) for f in frames):
+                    p.add("outside_domain")
+                    continue
+                for fill in (1, 2):
+                    S = RH.stream(frames, cfg[0], fill)
+                    p.add("nontrivial")
+                    for ch in chunkings_for(len(S), "small" if len(frames) == 1 else "big_q"):
+                        _chk(p, cfg, frames, fill, b"", ch, _mk(S, ch), label)
+        if p.full("clean_delivery"):
+            p.capped = True
+            break
+    return p
+
+
+def _work_fill(task) -> core.Part:
+    """Inter-frame fill of n flags for every n in a range (counters/thresholds in the reader would show here)."""
+    fills, = task
+    p = core.Part()
+    pool = core_pool()
+    for names in (("short", "flagesc", "hdr_only"), ("addr24", "short")):
+        frames = [pool[k] for k in names]
+        for fill in fills:
+            for cfg in X.CFGS:
+                if not all(RH.clean_domain(f, cfg[0], cfg[1]) for f in frames):
+                    continue
+                S = RH.stream(frames, cfg[0], fill)
+                p.add("nontrivial")
+                fam = [("cuts", []), ("fixed", 7, 3), ("cuts", [fill // 2 + 1]), ("cuts", [fill]), ("fixed", 64, 0)]
+                if fill <= 130:
+                    fam.append(("bytewise",))
+                for ch in fam:
+                    _chk(p, cfg, frames, fill, b"", ch, _mk(S, ch), "+".join(names))
+                if p.full("clean_delivery"):
+                    p.capped = True
+                    return p
+    return p
+
+
 def main(run: core.Run) -> int:
     q = run.quick
     run.rule = ("frame shapes = product of (type,S) x address lengths 1..4 x 1..4 x control x payload content x payload length; sequences = "
@@ -211,11 +257,18 @@ def main(run: core.Run) -> int:
                 seqt.append((tr, fill, nn, "seq"))
     run.log(f"sequences: {len(seqt)} streams")
     run.merge(par.pmap(_work_seq, seqt, seed=run.seed))
+    nsw = len(X.fcs_sweep_frames())
+    run.merge(par.pmap(_work_sweep, [(lo, lo + 22) for lo in range(0, nsw, 22)], seed=run.seed))
+    fills = list(range(1, 131)) + [255, 256, 257, 1000, 2047, 2048, 4096]
+    run.log(f"fill sweep: {len(fills)} fill lengths")
+    run.merge(par.pmap(_work_fill, [(fills[i::16],) for i in range(16)], seed=run.seed))
     tot = run.total
     tot.sample({"cfg": "stuffing=1,abort=1", "frames": ["short", "flagesc"], "fill": 2, "lead": "7d", "wire": RH.stream([core_pool()["short"], core_pool()["flagesc"]], True, 2, b"\x7d").hex()})
     tot.sample({"frame_spec": "type A/S0, dest 4 octets, src 4 octets, control 13, content escflag, payload max (total 2047 octets)"})
     run.bounds = {"single_frames": f"{len(specs)} shapes with payload 0/1/2/17 + {len(big)} shapes of 2046/2047 octets",
                   "sequences": f"{len(seqt)} streams (pairs: all 36 x fill 1..3 x 5 noises; triples: {'subset' if q else 'all 216'})",
+                  "check_sequence_sweep": f"{nsw} frames covering every octet value in every FCS/HCS position, alone and between two frames",
+                  "fill_sweep": "every fill length 1..130 and 255,256,257,1000,2047,2048,4096 on two multi-frame streams",
                   "chunkings": "one-shot, octet-wise, every single cut, fixed 2..9 x every phase; every pair of cuts for noise-free pairs <=80 octets; "
                                "maximum-size frames: fixed {2,3,7,64,1000,2047,2048} + " + ("selected single cuts" if q else "every single cut")}
     run.assumptions = ["frame builder mc/ref/hdlc.py; domain filter clean_domain() transcribes the statement's restrictions for the non-stuffing configurations"]
